@@ -86,12 +86,12 @@ package redis
 //@ func newSimpleRequest
 //@   prop C18 C03 C02
 //@   modifies nothing
-//@   ensures @fresh result != nil && fresh(result) && result.body == v && result.resp == nil && len(result.hooks) == 0 && !closed(result.done) && result.done != nil
+//@   ensures @fresh result != nil && fresh(result) && result.body == v && result.resp == nil && len(result.hooks) == 0 && cap(result.hooks) == 4 && fresh(result.hooks) && !closed(result.done) && result.done != nil
 
 //@ func newRawRequest
 //@   prop C02 C01
 //@   modifies nothing
-//@   ensures @fresh result != nil && fresh(result) && result.body == v && result.resp == nil && len(result.hooks) == 0 && !closed(result.done) && result.done != nil
+//@   ensures @fresh result != nil && fresh(result) && result.body == v && result.resp == nil && len(result.hooks) == 0 && cap(result.hooks) == 4 && fresh(result.hooks) && !closed(result.done) && result.done != nil
 
 //@ func (*simpleRequest).RegisterHook
 //@   prop C18 C02
